@@ -280,7 +280,7 @@ def run(ctx):
     # vacuity: the runs must have exercised what the clauses talk about
     if not ctx.violations:
         need = {"loop": 50, "cut": 20, "cutbelow": 3, "cutanti": 3, "boundary": 10, "full": 50, "short": 5,
-                "poked": 5, "nocanloop": 20, "stopover": 3, "infloop": 50, "arc": 20, "reuse": 5, "given": 100, "inferred": 100}
+                "poked": 5, "nocanloop": 20, "stopover": 3, "infloop": 50, "reusenz": 20, "stopped": 3, "arc": 20, "reuse": 5, "given": 100, "inferred": 100}
         low = {k: stat.get(k, 0) for k, v in need.items() if stat.get(k, 0) < v}
         if low:
             raise vlib.Broken("X02 binding is vacuous: too few steps of kind %s (need %s)" % (low, need))
